@@ -22,6 +22,8 @@ innerst = static_library('innerst', files=['is.c'], link_options=['-pthread'])
 outerst = static_library('outerst', files=['os.c'], libs=[innerst])
 fwd = pkg_config('fwd', version='1.0', libs=[outerst], link_options_private=['-Wl,-O1'])
 executable('consumer2', files=['c2.c'], packages=[fwd])
+g = package('g', kind='static')
+pkg_config('usesgen', version='1.0', requires=[g])
 pkg_config('special', version='1.0', options=['-DA=a#b', '-DB=${x}', '-DC=c d'])
 mine = pkg_config('mine', version='1.0', includes=[inc], libs=[lib], options=['-DGREETING="hi there"'])
 executable('consumer', files=['c.c'], packages=[mine])
@@ -47,6 +49,10 @@ EXPECT = {
     'fwd': {'installed': ([], ['-L{P}/lib', '-louterst'], '1.0', '', ['-L{P}/lib', '-louterst', '-linnerst', '-pthread', '-Wl,-O1']),
             'uninstalled': ([], ['-L{B}', '-louterst'], '1.0', '', ['-L{B}', '-louterst', '-linnerst', '-pthread', '-Wl,-O1'])},
     # option values with characters the .pc format itself reads (`#` comment, `${x}` variable reference)
+    # a package that the package manager *generated* (no .pc of its own to require): its flags are copied in, for a
+    # static package the private ones with their directories too
+    'usesgen': {'installed': (['-I/opt/g/include'], ['-L/opt/g/lib', '-L/opt/gcore/lib', '-lg', '-lgcore'], '1.0', ''),
+                'uninstalled': (['-I/opt/g/include'], ['-L/opt/g/lib', '-L/opt/gcore/lib', '-lg', '-lgcore'], '1.0', '')},
     'special': {'installed': (['-DA=a#b', '-DB=${{x}}', '-DC=c d'], [], '1.0', ''), 'uninstalled': (['-DA=a#b', '-DB=${{x}}', '-DC=c d'], [], '1.0', '')},
     'mine': {'installed': (['-I{P}/include', '-DGREETING="hi there"'], ['-L{P}/lib/my lib', '-lmylib'], '1.0', ''),
              'uninstalled': (['-I{S}/include dir', '-DGREETING="hi there"'], ['-L{B}/my lib', '-lmylib'], '1.0', '')},
@@ -91,13 +97,17 @@ class PkgConfigRun(Bounded):
             w(src + '/os.c', 'int innerst(void); int outerst(void) { return innerst(); }\n')
             w(src + '/c.c', '#include "a.h"\n#include <string.h>\nint l(void);\n'
                             'int main(void) { return l() + strcmp(GREETING, "hi there"); }\n')
+            w(top + '/deps/gdep.pc', 'Name: gdep\nDescription: g\nVersion: 1.0\nCflags: -I/opt/g/include\n'
+                                     'Libs: -L/opt/g/lib -lg\nLibs.private: -L/opt/gcore/lib -lgcore\n')
             w(top + '/deps/zcore.pc', 'Name: zcore\nDescription: z\nVersion: 1.2\nCflags: -I/opt/z/include\n'
                                       'Libs: -L/opt/z/lib -lzcore\n')
             # no usable mopack in the sandbox: a stub that knows the package `z` as the pkg-config module `zcore`
             w(top + '/bin/mopack', '#!/bin/sh\ncase "$1" in linkage) for a; do last=$a; done\n'
                                    'case "$last" in z) echo \'{"name": "z", "type": "pkg_config", "pcnames": ["zcore"], '
+                                   '"pkg_config_path": ["%s/deps"]}\';; '
+                                   'g) echo \'{"name": "g", "type": "pkg_config", "generated": true, "pcnames": ["gdep"], '
                                    '"pkg_config_path": ["%s/deps"]}\';; *) echo \'{"error": "unknown"}\'; exit 1;; esac;; esac\n'
-                                   % top)
+                                   % (top, top))
             os.chmod(top + '/bin/mopack', 0o755)
             w(top + '/deps/dep.pc', 'Name: dep\nDescription: d\nVersion: 1.5\nCflags: -I/opt/dep/include\n'
                                     'Libs: -L/opt/dep/lib -ldep\n')
